@@ -4,6 +4,7 @@ import (
 	"encoding/json"
 	"fmt"
 	"net/url"
+	"strings"
 
 	"github.com/google/jsonschema-go/jsonschema"
 	"verif.local/simrt"
@@ -113,6 +114,9 @@ func driveC14(c *Ctx) {
 	default:
 		doc = GenSchemaDoc(c, draft7)
 		text = JSON(doc)
+		if strings.Count(text, `"$anchor":"A1"`) > 1 || strings.Count(text, `"$anchor":"A2"`) > 1 {
+			c.Probe("same-anchor-declared-twice")
+		}
 		n := 2 + c.W(4)
 		for i := 0; i < n; i++ {
 			insts = append(insts, GenInstanceFor(c, doc, 3))
